@@ -472,6 +472,8 @@ def _compute_cost(rc: RuleCtx):
         ok = True
         seen = 0
         for g, v in cases_of(val):
+            if not g_sat(g):
+                continue            # a dead case (e.g. the clip of a quantity that cannot be negative)
             if not isinstance(v, Rat):
                 ok = False
                 res.violation("U5", mod, fi.name, fi.node, f"Metrics.{mname}: non-numeric result {v!r}", construct=f"finalise {mname}")
